@@ -27,7 +27,7 @@ fn main() {
     ctx.assume("agentsim: the frames a still-connected remote has received at quiescence (linked without a later unlinked) define 'actually linked'; a remote the harness dropped may or may not still be counted until the runtime notices (completion promise)");
     ctx.assume("event_count counts events handed to links before backpressure relief (count_single: 1 per targeted response incl. the synced marker, count_broadcast: current fan-out), as implemented in handle_event");
 
-    let (d22, d33) = ctx.pick((7usize, 5usize), (9usize, 7usize));
+    let (d22, d33) = ctx.pick((7usize, 6usize), (9usize, 7usize));
     ctx.enumerate("links-enum-2x2", |w, ws| links::tree_cases(2, 2, d22, 2, w, ws), links::check_tree);
     ctx.enumerate("links-enum-3x3", |w, ws| links::tree_cases(3, 3, d33, 2, w, ws), links::check_tree);
     let n = ctx.pick(300_000, 20_000_000);
